@@ -128,7 +128,7 @@ def observe_text(case):
                 continue
             r = c.resolution
             cands.append({"val": qa.val_json(r), "s": int(r.mstart), "e": int(r.mend),
-                          "ids": [int(x) for x in c.production if isinstance(x, int)],
+                          "ids": [qa.mid(int(x)) for x in c.production if isinstance(x, int)],
                           "rules": [x for x in c.production if not isinstance(x, int)]})
             objs.append(r)
     for c, r in zip(cands, objs):
